@@ -138,6 +138,11 @@ class Hub:
         self.ports[name] = ser
         return ser
 
+    def add_mqtt_port(self, name: str, gid: str) -> "FakeMqttPort":
+        port = FakeMqttPort(self, name, gid)
+        self.ports[name] = port
+        return port
+
     def serial_for_url(self, name, **cfg):
         try:
             ser = self.ports[name]
@@ -193,6 +198,9 @@ class Hub:
     def deliver(self, ser: FakeSerial, data: bytes) -> None:
         """Bytes become readable on `ser` now."""
         self.rx_log.append((self.loop.time(), ser.name, data))
+        if isinstance(ser, FakeMqttPort):
+            ser.deliver(data)
+            return
         ser.rx += data
         ser.kick()
 
@@ -294,5 +302,62 @@ class FakeMqttClient:
         if FakeMqttClient.fail_publish is not None:
             err, FakeMqttClient.fail_publish = FakeMqttClient.fail_publish, None
             raise err
+        port = getattr(self, "port", None)
+        if port is not None and port.fail_write is not None:
+            err, port.fail_write = port.fail_write, None
+            port.hub.count("write_error")
+            raise err
         self.published.append((time.perf_counter(), topic, payload))
+        if port is not None:
+            port.on_publish(topic, payload)
         return True
+
+
+class FakeMqttPort:
+    """A ramses_esp gateway behind an MQTT broker, seen from the hub like a serial port: what the library publishes on <topic>/tx
+    is a transmission (the firmware model echoes it, peers hear it); whatever the hub delivers reaches the library as JSON
+    messages on <topic>/rx through the client's on_message callback, on the loop (there is no paho thread)."""
+
+    fw = "evofw3"
+
+    def __init__(self, hub: "Hub", name: str, gid: str) -> None:
+        self.hub = hub
+        self.name = name
+        self.gid = gid.encode()
+        self.topic = f"RAMSES/GATEWAY/{gid}"
+        self.client: FakeMqttClient | None = None
+        self.fd = -1
+        self.rx = bytearray()
+        self.fail_read: Exception | None = None  # not applicable to MQTT (kept for interface parity)
+        self.fail_write: Exception | None = None
+        self.closed_at: float | None = None
+
+    def attach(self, client: "FakeMqttClient") -> None:
+        self.client = client
+        client.port = self
+
+    def kick(self) -> None:
+        pass
+
+    def status(self, word: bytes) -> None:
+        """The gateway's retained status topic: b'online' / b'offline'."""
+        self.client.on_message(self.client, None, FakeMqttMessage(self.topic, word))
+
+    def on_publish(self, topic: str, payload: str) -> None:
+        import json
+
+        if topic != self.topic + "/tx":
+            return
+        self.hub.on_write(self, json.loads(payload)["msg"].encode() + b"\r\n")
+
+    def deliver(self, data: bytes) -> None:
+        import json
+        from datetime import datetime as real_dt  # noqa: F401
+        import ramses_tx.transport as T
+
+        for line in data.split(b"\r\n"):
+            if not line:
+                continue
+            ts = T.dt.now().isoformat(timespec="microseconds")
+            msg = FakeMqttMessage(self.topic + "/rx", json.dumps({"ts": ts, "msg": line.decode("ascii", "replace")}).encode())
+            self.client.on_message(self.client, None, msg)
